@@ -58,6 +58,7 @@ fn untyped_case(ctx: &ShardCtx, r: &RValue, obs: &mut Obs) -> Result<(), String>
 }
 
 fn run(ctx: &ShardCtx, rep: &mut Report) {
+    gen::UNICODE_SYMBOLS.store(true, std::sync::atomic::Ordering::Relaxed);
     let n = ctx.budget(160_000, 8_000_000);
     pt_run(ctx, rep, "untyped", n, gen::rvalue(gen::GenCfg::default()), |r, o| untyped_case(ctx, r, o));
     let n = ctx.budget(16_000, 400_000);
